@@ -28,3 +28,20 @@ Example C14_ex :
   exists a d ds, add_content cx (lit "f") = Added (FR (lit "f") (Some a) (d :: ds)) /\ d_kind d = DError /\
                  match ai_item a with ItInterface i => map (fun e => match e with IEMethod m => m_name m | IEConst c => c_name c end) (i_elems i) = [lit "a"; lit "b"] | _ => False end.
 Proof. vm_compute. do 3 eexists. split; [reflexivity|split; reflexivity]. Qed.
+
+(* KNOWN FINDING (known_findings.txt): the full statement is false of the model, and of the code, for one class of inputs.  In an
+   enum body the members' terminator is the comma, and the comma is also the separator of annotation parameters; a malformed
+   member that opens an annotation parenthesis without closing it -- `@X ( B ,` -- therefore does not end at its terminator as
+   far as the parser is concerned: the following elements are read as annotation parameters, the error is only met at the
+   closing brace, and recovery drops everything since the annotation.  Witness: the elements C and D are lost and the Error
+   sits on `}` (offset 37), outside the malformed member (offsets 23..31). *)
+Definition elem_names (a : aidl) : list str :=
+  match ai_item a with ItEnum e => map ee_name (e_elems e) | _ => [] end.
+Example C14_known :
+  let with_bad := lit "package p; enum E { A, @X ( B, C, D, }" in
+  let without := lit "package p; enum E { A, C, D, }" in
+  let cx s := Ctx s (map (fun i => (1, N.of_nat i + 1)%N) (seq 0 (S (length s)))) in
+  (exists a, add_content (cx without) (lit "f") = Added (FR (lit "f") (Some a) []) /\ elem_names a = [lit "A"; lit "C"; lit "D"]) /\
+  (exists a d, add_content (cx with_bad) (lit "f") = Added (FR (lit "f") (Some a) [d]) /\ elem_names a = [lit "A"] /\
+               d_kind d = DError /\ p_off (r_start (d_range d)) = 37%N).
+Proof. vm_compute. split; [eexists; split; reflexivity|do 2 eexists; repeat split; reflexivity]. Qed.
